@@ -275,7 +275,7 @@ def avx2_jobs(seed=0):
                              pre_unwindset=["__builtin_ia32_pmuludq256.0:5", "__builtin_ia32_psrlqi256.0:5", "__builtin_ia32_psllqi256.0:5", "table.0:5", "weights.0:9"],
                              replay=({"driver": "q120_prod", "fn": names[prod] + "_avx2"} if prod in (0, 1) else None),
                              loops={fn: {"count": 1, "loops": [loop]}},
-                             cbmc_flags=["--no-signed-overflow-check", "--unsigned-overflow-check"], functions=[fn], timeout=3600, solver="race",
+                             cbmc_flags=["--no-signed-overflow-check", "--unsigned-overflow-check"], functions=[fn], timeout=3600, solver="minisat",   # minisat won every measured run; one process halves the memory (1.5-3 GB each)
                              waive=[r"arithmetic overflow on unsigned \+ in \{.*\}\[%dl\] \+ \{.*\}\[%dl\]$" % (o, o) for o in range(4) if o != lane],
                              # the two-column block form needs ~15 min per run: one lane per tracked row is registered, the other lanes
                              # (the same code, lane-symmetric) stay runnable by name
